@@ -454,3 +454,153 @@ def bool_eval(t, val):
         return not bool_eval(t[1], val)
     a, pol = ex.atom(t)
     return val[a] == pol
+
+
+# ---- P2 guard dominance by forward must-dataflow ---------------------------------------------------------------------------------------------
+def dominating_facts(A, fn, node, with_lines=False, all_blocks=False, with_preds=False):
+    """facts {(atom, truth)} holding on every path from entry to the element containing `node` (P2), computed by forward dataflow on the CFG.
+    with_lines: facts are (atom, truth, line of the branch); all_blocks: return (IN map, target block)"""
+    v = A.view(fn)
+    target = None
+    for b in v.blocks:
+        for eid in b.get('e', []):
+            if any(n is node for n in ex.walk(fn['elems'][eid]['x'])):
+                target = b['id']
+    if target is None:
+        return set()
+    # forward must-analysis: IN[b] = intersection over predecessors of OUT[p] + edge fact (no kill: facts about fields are trusted between tests)
+    preds = {}
+    for b in v.blocks:
+        ss = b.get('s', [])
+        for i, s_ in enumerate(ss):
+            if s_ is None:
+                continue
+            fact = None
+            t = b.get('t')
+            if t and len(ss) == 2 and t.get('k') != 'SwitchStmt':
+                ap = v.cond_atom(b['id'])
+                if ap is not None:
+                    fact = (ap[0], (i == 0) == ap[1], t.get('l', 0)) if with_lines else (ap[0], (i == 0) == ap[1])
+            preds.setdefault(s_, []).append((b['id'], fact))
+    IN = {}
+    entry = fn['entry']
+    IN[entry] = set()
+    changed = True
+    order = sorted((b['id'] for b in v.blocks), reverse=True)
+    while changed:
+        changed = False
+        for b in order:
+            if b == entry:
+                continue
+            acc = None
+            for p, fact in preds.get(b, ()):  # noqa
+                if p not in IN:
+                    continue
+                s_ = set(IN[p])
+                if fact:
+                    s_.add(fact)
+                acc = s_ if acc is None else (acc & s_)
+            if acc is None:
+                continue
+            if IN.get(b) != acc:
+                IN[b] = acc
+                changed = True
+    if with_preds:
+        return IN, target, preds
+    if all_blocks:
+        return IN, target
+    return IN.get(target, set())
+
+
+# ---- P17 extremum-update coherence ------------------------------------------------------------------------------------------------------------
+def commut_eq(a, b):
+    """structural equality of two terms modulo commutativity of + and * and transparent casts"""
+    if a == b:
+        return True
+    if a[0] in ('cast', 'conv'):
+        return commut_eq(a[2], b)
+    if b[0] in ('cast', 'conv'):
+        return commut_eq(a, b[2])
+    if a[0] == 'bin' and b[0] == 'bin' and a[1] == b[1] and a[1] in ('+', '*'):
+        return (commut_eq(a[2], b[2]) and commut_eq(a[3], b[3])) or (commut_eq(a[2], b[3]) and commut_eq(a[3], b[2]))
+    if a[0] == b[0] and len(a) == len(b) and a[0] in ('bin', 'idx', 'un'):
+        return all(commut_eq(x, y) if isinstance(x, tuple) and x and isinstance(x[0], str) else x == y for x, y in zip(a[1:], b[1:]))
+    return False
+
+
+def rel_to(atom_, truth, acc):
+    """relation of the other operand e to the accumulator established by a comparison atom with its truth value:
+    (e, 'lt'|'le'|'gt'|'ge') or None when the atom does not compare something with `acc`"""
+    if atom_[0] == 'bin' and atom_[1] == '==' and truth and acc in (atom_[2], atom_[3]):
+        other = atom_[3] if atom_[2] == acc else atom_[2]
+        if other[0] in ('int', 'float'):
+            return other, 'eq'          # accumulator still holds its 'unset' sentinel
+    if atom_[0] != 'bin' or atom_[1] not in ('<', '<='):
+        return None
+    if atom_[3] == acc:      # e op acc
+        return atom_[2], {('<', True): 'lt', ('<', False): 'ge', ('<=', True): 'le', ('<=', False): 'gt'}[(atom_[1], truth)]
+    if atom_[2] == acc:      # acc op e
+        return atom_[3], {('<', True): 'gt', ('<', False): 'le', ('<=', True): 'ge', ('<=', False): 'lt'}[(atom_[1], truth)]
+    return None
+
+
+def extremum_updates(analyzer, fn, is_acc):
+    """every update of an accumulator selected by is_acc(lhs normal form) in fn, decoded as an extremum idiom.
+    Returns dicts: acc, line, form ('min-call' | 'max-call' | 'guarded' | 'plain'), stored, compared, rel, sentinel (a dominating
+    test of the accumulator against a literal, e.g. `acc < 0`), eid"""
+    v = analyzer.view(fn)
+    out = []
+    for eid in range(len(fn['elems'])):
+        for e in v.events_of(eid):
+            if e.kind != 'assign' or e.op != '=' or not is_acc(e.lhs) or e.eid != eid:
+                continue
+            acc = e.lhs
+            rhs = e.rhs
+            while rhs[0] in ('cast', 'conv'):
+                rhs = rhs[2]
+            d = {'acc': acc, 'line': e.line, 'eid': eid, 'stored': rhs, 'compared': None, 'rel': None, 'sentinel': None, 'decl': bool(e.decl)}
+            if rhs[0] == 'call' and rhs[1] in ('std::min', 'std::max') and len(rhs[3]) == 2 and acc in rhs[3]:
+                other = [x for x in rhs[3] if x != acc]
+                d['form'] = 'min-call' if rhs[1] == 'std::min' else 'max-call'
+                d['stored'] = d['compared'] = other[0] if other else acc
+                d['rel'] = 'lt' if rhs[1] == 'std::min' else 'gt'
+                out.append(d)
+                continue
+            IN, tgt, preds = dominating_facts(analyzer, fn, fn['elems'][eid]['x'], with_lines=True, with_preds=True)
+            # one justification per incoming edge of the block (a short-circuit `a || b` reaches it by two edges)
+            edges = []
+            for p_, fact in preds.get(tgt, ()):
+                if p_ not in IN:
+                    continue
+                fs = set(IN[p_])
+                if fact:
+                    fs.add(fact)
+                cands = []
+                for a_, t_, l_ in fs:
+                    r = rel_to(a_, t_, acc)
+                    if r is None:
+                        continue
+                    kind = 'sentinel' if r[0][0] in ('int', 'float') else 'cmp'
+                    cands.append(((l_, (a_, t_, l_) == fact), kind, r[0], r[1]))
+                if cands:
+                    cands.sort(key=lambda c: c[0])
+                    _, kind, e_, rel_ = cands[-1]      # the closest test (the edge's own test wins a tie) justifies this edge
+                    edges.append((kind, e_, rel_))
+                else:
+                    edges.append(None)
+            cmps = [x for x in edges if x and x[0] == 'cmp']
+            sents = [x for x in edges if x and x[0] == 'sentinel']
+            d['edges'] = edges
+            if cmps:
+                d['form'] = 'guarded'
+                d['compared'], d['rel'] = cmps[0][1], cmps[0][2]
+                d['coherent_edges'] = all(commut_eq(c[1], cmps[0][1]) and c[2] == cmps[0][2] for c in cmps) and None not in edges
+            elif sents:
+                d['form'] = 'sentinel'
+                d['coherent_edges'] = None not in edges
+            else:
+                d['form'] = 'plain'
+            if sents:
+                d['sentinel'] = (sents[0][1], sents[0][2])
+            out.append(d)
+    return out
